@@ -2,7 +2,7 @@
 odak function and method wrapped by a snapshot check — arguments (not `self`) and the function's own
 default-argument objects are deep-snapshotted before the call and compared bit for bit afterwards.
 
-usage: c20_corpus.py <repo> <test file relative to repo> [max snapshots per function]
+usage: c20_corpus.py <repo> <test file relative to repo> [max snapshots per function] [cpu seconds]
 prints one line `@@C20 {json}`.
 """
 import functools, importlib, importlib.util, inspect, io, json, os, sys, time, contextlib
@@ -11,6 +11,15 @@ import functools, importlib, importlib.util, inspect, io, json, os, sys, time, c
 def main():
     repo, test = sys.argv[1], sys.argv[2]
     limit = int(sys.argv[3]) if len(sys.argv) > 3 else 6
+    cpu = int(sys.argv[4]) if len(sys.argv) > 4 else 0
+    if cpu:
+        # a CPU-time budget (independent of the load of the machine); on SIGXCPU the partial result is still reported
+        import resource, signal
+
+        def on_xcpu(signum, frame):
+            raise TimeoutError('cpu-limit %ds' % cpu)
+        signal.signal(signal.SIGXCPU, on_xcpu)
+        resource.setrlimit(resource.RLIMIT_CPU, (cpu, cpu + 20))
     sys.path.insert(0, repo)
     sys.path.insert(0, os.path.dirname(os.path.dirname(os.path.dirname(os.path.abspath(__file__)))))
     os.chdir(repo)
@@ -87,7 +96,7 @@ def main():
         err = 'SystemExit(%r)' % (e.code,)
     except BaseException as e:                            # the test's own failures are not C20's business
         err = repr(e)[:300]
-    out = {'test': test, 'snapshots': calls[0], 'functions': sorted(counts), 'violations': viol[:200], 'error': err, 'seconds': round(time.time() - t0, 2)}
+    out = {'test': test, 'cpu_limit_hit': bool(err and 'cpu-limit' in err), 'snapshots': calls[0], 'functions': sorted(counts), 'violations': viol[:200], 'error': err, 'seconds': round(time.time() - t0, 2)}
     sys.__stdout__.write('@@C20 ' + json.dumps(out) + '\n')
     sys.__stdout__.flush()
     os._exit(0)
